@@ -33,8 +33,8 @@ pub fn known_line(class: &str) -> Option<String> {
 
 /// C07: a generated request that rcgen's own parser refuses. Only the recorded class
 /// (P-521/SHA-512 requests, unsupported by x509-parser's verifier) is tolerated.
-pub fn c07_parse_back_refused(case: &crate::props::common::CsrCase, _err: &rcgen::Error) -> Option<String> {
-	if case.key.alg == crate::spec::KeyAlg::P521 && listed("K-P521-CSR-PARSE").is_some() {
+pub fn c07_parse_back_refused(case: &crate::props::common::CsrCase, err: &rcgen::Error) -> Option<String> {
+	if case.key.alg == crate::spec::KeyAlg::P521 && *err == rcgen::Error::RingUnspecified && listed("K-P521-CSR-PARSE").is_some() {
 		return Some("known:K-P521-CSR-PARSE".into());
 	}
 	None
